@@ -1394,3 +1394,53 @@ func namedOf(t types.Type) *types.Named {
 }
 
 func typeStr(t types.Type) string { return types.TypeString(t, shortQual) }
+
+// pathToBlocks reports whether some path leads from just after `from` to the
+// entry of a block accepted by target, avoiding instructions in avoid.
+func pathToBlocks(from ssa.Instruction, target func(*ssa.BasicBlock) bool, avoid func(ssa.Instruction) bool) *ssa.BasicBlock {
+	type pt struct {
+		b *ssa.BasicBlock
+		i int
+	}
+	seen := map[*ssa.BasicBlock]bool{}
+	var found *ssa.BasicBlock
+	var walk func(p pt) bool
+	walk = func(p pt) bool {
+		for i := p.i; i < len(p.b.Instrs); i++ {
+			if avoid != nil && avoid(p.b.Instrs[i]) {
+				return false
+			}
+		}
+		for _, s := range p.b.Succs {
+			if target(s) {
+				found = s
+				return true
+			}
+			if seen[s] {
+				continue
+			}
+			seen[s] = true
+			if walk(pt{s, 0}) {
+				return true
+			}
+		}
+		return false
+	}
+	walk(pt{from.Block(), instrIndex(from) + 1})
+	return found
+}
+
+// pathFromBlockEntry is pathExists starting at the first instruction of b (inclusive).
+func pathFromBlockEntry(b *ssa.BasicBlock, to ssa.Instruction, avoid func(ssa.Instruction) bool) bool {
+	if len(b.Instrs) == 0 {
+		return false
+	}
+	first := b.Instrs[0]
+	if first == to {
+		return true
+	}
+	if avoid != nil && avoid(first) {
+		return false
+	}
+	return pathExists(first, to, avoid)
+}
